@@ -143,6 +143,12 @@ def check_noise(res: Result, c: Counter, packets: list[tuple[int, bytes]], h: An
     except Exception as e:  # noqa: BLE001
         res.add(key, f"write_packets raised {type(e).__name__}: {e}", {"packets": [(t, len(p)) for t, p in packets]})
         return False
+    if not packets:
+        # an empty batch: nothing to say - at most an empty write, and no nonce is used up (the next batch proves it)
+        if any(tr.writes):
+            res.add("noise:empty-batch", f"an empty batch wrote {sum(map(len, tr.writes))} bytes", {})
+            return False
+        return True
     if len(tr.writes) != 1:
         res.add(key, f"{len(tr.writes)} transport writes for one batch", {"packets": [(t, len(p)) for t, p in packets]})
         return False
@@ -274,6 +280,8 @@ def run(tier: str, seed: int) -> Result:
             k = i % 3 + 1
             pk = [((i + j) % 120 + 1, bytes([j, i % 251])) for j in range(k)]
             ok = check_noise(res, c, pk, hn2, trn2, dev2)
+            if ok and i % 1000 == 7:
+                ok = check_noise(res, c, [], hn2, trn2, dev2)  # now and then an empty batch in between
             i += 1
         nonce_reached = dev2.r.rx.n  # type: ignore[union-attr]
         # ---------------- (b) connection level ------------------------------------------------------
